@@ -531,7 +531,7 @@ func runCheck(args []string) int {
 				ev.TraceMismatches = append(ev.TraceMismatches, fmt.Sprintf("vector=%v predicted=%v native: observed=%v failed=%v panic=%q infeasible=%v", p.Vector, p.Observed, o.Observed, o.Failed, o.Panic, o.Infeasible))
 			}
 		}
-		ev.Clean = hr.Unwind == 0 && len(hr.Unsupported) == 0 && len(hr.Faults) == 0 && len(hr.Inconcl) == 0 &&
+		ev.Clean = hr.Unwind == 0 && len(hr.Unsupported) == 0 && len(hr.Traps) == 0 && len(hr.Faults) == 0 && len(hr.Inconcl) == 0 &&
 			!hr.PathsCapped && len(ev.MissingReach) == 0 && ev.Unconfirmed == 0 && len(ev.TraceMismatches) == 0 && hr.SolverErrs == 0
 		if !ev.Clean {
 			allClean = false
@@ -544,6 +544,9 @@ func runCheck(args []string) int {
 			}
 			if len(hr.Faults) > 0 {
 				why = append(why, "engine fault: "+firstLine(hr.Faults[0]))
+			}
+			if len(hr.Traps) > 0 {
+				why = append(why, strings.Join(hr.Traps, "; "))
 			}
 			if len(hr.Inconcl) > 0 {
 				why = append(why, "solver inconclusive: "+firstLine(hr.Inconcl[0]))
